@@ -102,8 +102,10 @@ def write_cases(path, binary, cases, stack_every=0):
                 f.write("env %s\n" % hx(e))
             payload = "".join(hx(k) + "\n" for k in c["keys"])
             f.write("in %s\n" % (payload.encode().hex() or "-"))
+            if c.get("ids"):
+                f.write("ids %d %d\n" % tuple(c["ids"]))
             f.write("wait clock real\n")
-            if stack_every and i % stack_every == 0:
+            if stack_every and i % stack_every == 1:
                 f.write("stack\n")
             f.write("end\n")
 
@@ -118,6 +120,44 @@ def res_of(words):
     return {"k": words[0]}
 
 
+def stack_picture(r):
+    """The REAL initial stack (memory from the initial stack pointer to the stack top, dumped by the launcher)
+    as Startup.tla's picture: words argc, argv.., 0, envp.., 0, (key, value).., 0 with pointers into the dump
+    rewritten to 1-based heap indices (heap = the dump itself), and the dump as byte sequence."""
+    if "stack" not in r:
+        return [], []
+    mem = bytes.fromhex(r["stack"])
+    sp = r["sp"]
+    words = []
+    nwords = len(mem) // 8
+
+    def w(i):
+        return int.from_bytes(mem[8 * i:8 * i + 8], "little")
+
+    def conv(v):
+        if sp <= v < sp + len(mem):
+            return v - sp + 1
+        return v if v < 2 ** 31 else 2 ** 30 + v % 2 ** 30      # not a pointer into the picture: only compared for equality
+
+    i = 0
+    argc = w(0)
+    words.append(argc)
+    i = 1
+    zeros = 0
+    while i < nwords and zeros < 2:        # argv.., 0, envp.., 0
+        v = w(i)
+        words.append(conv(v) if v else 0)
+        zeros += 1 if v == 0 and (zeros == 1 or i == 1 + argc) else 0
+        i += 1
+    while i + 1 < nwords:                  # aux pairs up to AT_NULL
+        k, v = w(i), w(i + 1)
+        words += [k if k < 2 ** 31 else 2 ** 30, conv(v)]
+        i += 2
+        if k == 0:
+            break
+    return words, list(mem)
+
+
 def to_record(c, mode, build, r):
     """launcher result + probe output -> trace record for StartupJudge"""
     rec = {"mode": mode, "build": build, "argv": c["argv"], "env": c["env"],
@@ -125,13 +165,14 @@ def to_record(c, mode, build, r):
            "argc": [0, 0], "args_os": [], "args": [], "look": [],
            "aux": {"uid": -1, "gid": -1, "random": [], "execfn": []},
            "kaux": {"uid": -2, "gid": -2, "random": [], "execfn": []},
-           "mono": [], "real": []}
+           "mono": [], "real": [], "reloc": []}
     st = r.get("status")
     rec["status"] = "exit0" if (st == "exit" and r.get("code") == 0) else (
         "crashed:sig%d" % r["code"] if st == "signal" else "timeout" if st == "timeout" else "exit:%s" % r.get("code"))
     aux = dict((k, v) for k, v in r.get("auxv", []))
     rec["kaux"] = {"uid": aux.get(11, -2), "gid": aux.get(13, -2), "random": list(bytes.fromhex(r.get("random", ""))),
                    "execfn": list(bytes.fromhex(r.get("execfn", "")))}
+    rec["st"], rec["heap"] = stack_picture(r)
     out = bytes.fromhex(r.get("out", "")).decode("latin-1")
     lines = out.split("\n")
     done = False
@@ -150,6 +191,8 @@ def to_record(c, mode, build, r):
                 rec["aux"][w[0]] = int(w[1])
             elif w[0] in ("random", "execfn"):
                 rec["aux"][w[0]] = [] if w[1] == "none" else unhx(w[1])
+            elif w[0] == "reloc":
+                rec["reloc"].append(unhx(w[2]))
             elif w[0] == "clock":
                 rec[w[1]] = [[int(w[2]), int(w[3])], [int(w[4]), int(w[5])], [int(w[6]), int(w[7])]]
             elif w[0] in ("var", "varu"):
@@ -171,7 +214,7 @@ def run_binary(chk, mode, build, binary, cases, tag, stack_every=0):
     cf = os.path.join(chk.work, "cases_%s_%s_%s.txt" % (mode, build, tag))
     of = os.path.join(chk.work, "launch_%s_%s_%s.ndjson" % (mode, build, tag))
     write_cases(cf, binary, cases, stack_every)
-    p = subprocess.run([LAUNCH, cf, of, "10000"], stdout=subprocess.PIPE, stderr=subprocess.PIPE, timeout=3000)
+    p = subprocess.run([LAUNCH, cf, of, "8000", "12"], stdout=subprocess.PIPE, stderr=subprocess.PIPE, timeout=3000)
     if p.returncode != 0:
         raise core.ToolError("launch failed rc=%d: %s" % (p.returncode, p.stderr.decode()[-500:]))
     res = {}
@@ -182,6 +225,8 @@ def run_binary(chk, mode, build, binary, cases, tag, stack_every=0):
         raise core.ToolError("launch reported %d of %d cases" % (len(res), len(cases)))
     recs, raws = [], []
     for i, c in enumerate(cases):
+        if res[i].get("status") == "skipped":      # the launcher gave up on this binary after 12 consecutive failures
+            continue
         if res[i].get("status") == "execfail":
             raise core.ToolError("execve of %s failed: errno %s" % (binary, res[i].get("code")))
         recs.append(to_record(c, mode, build, res[i]))
@@ -281,6 +326,14 @@ def report(chk, rec, verdict, replay):
         elif clause == "aux":
             chk.violate({"clause": "aux"},
                         "[%s/%s] aux getters %s but the kernel passed %s" % (rec["mode"], rec["build"], brief_aux(rec["aux"]), brief_aux(rec["kaux"])), replay)
+        elif clause == "stack":
+            chk.violate({"clause": "stack"},
+                        "[%s/%s] the probe's answers differ from the real initial stack read with Startup.tla's Args/EnvBlock/Aux: args_os=%s aux=%s" % (
+                            rec["mode"], rec["build"], [show(a) for a in rec["args_os"]], brief_aux(rec["aux"])), replay)
+        elif clause == "reloc":
+            chk.violate({"clause": "reloc", "mode": rec["mode"]},
+                        "[%s/%s] strings read through the probe's relocated pointer tables: %s" % (
+                            rec["mode"], rec["build"], [show(x) for x in rec["reloc"]]), replay)
         elif clause == "clock":
             chk.violate({"clause": "clock", "mode": rec["mode"]},
                         "[%s/%s] clock readings (syscall, tiny-std, syscall) not ordered: mono=%s real=%s" % (
@@ -306,6 +359,65 @@ def vdso_used(binary):
         return None
     n = len(re.findall(r"^clock_gettime\(", p.stderr.decode("latin-1"), re.M))
     return {"clock_gettime_syscalls": n, "vdso_used": n == 4}
+
+
+def reloc_audit(binary):
+    """Static-PIE self-relocation seen from outside (a LEAD generator, never a verdict): every
+    R_X86_64_RELATIVE word of the running probe must hold load base + addend.  Also reports where the
+    probe's own pointer tables lie among the relocated words (first / last .rela.dyn entries)."""
+    try:
+        rl = subprocess.run(["readelf", "-rW", binary], stdout=subprocess.PIPE, stderr=subprocess.PIPE, timeout=60).stdout.decode()
+        nm = subprocess.run(["nm", "-n", "-S", binary], stdout=subprocess.PIPE, stderr=subprocess.PIPE, timeout=60).stdout.decode()
+    except (OSError, subprocess.TimeoutExpired):
+        return None
+    rel = [(int(m.group(1), 16), int(m.group(2), 16)) for m in re.finditer(r"^([0-9a-f]{16})\s+[0-9a-f]{16} R_X86_64_RELATIVE\s+([0-9a-f]+)", rl, re.M)]
+    if not rel:
+        return {"relative_relocations": 0}
+    tables = []
+    for m in re.finditer(r"^([0-9a-f]{16}) (?:([0-9a-f]{16}) )?\w (\S*(?:TABLE_RO|TABLE_RW|VERIF_TABLE_LAST)\S*)", nm, re.M):
+        size = int(m.group(2), 16) if m.group(2) else 32
+        tables.append((int(m.group(1), 16), size or 32))
+    inside = lambda off: any(a <= off < a + s for a, s in tables)
+    info = {"relative_relocations": len(rel), "last_entry_in_probe_table": inside(rel[-1][0]),
+            "first_entry_in_probe_table": inside(rel[0][0]),
+            "entries_in_probe_tables": sum(1 for o, _ in rel if inside(o))}
+    p = subprocess.Popen([binary, "audit"], stdin=subprocess.PIPE, stdout=subprocess.PIPE, stderr=subprocess.PIPE, env={})
+    try:
+        seen = b""
+        while b"clock real" not in seen:
+            ch = p.stdout.readline()
+            if not ch:
+                break
+            seen += ch
+        base = None
+        for l in open("/proc/%d/maps" % p.pid):
+            if binary in l:
+                lo = int(l.split("-")[0], 16)
+                off = int(l.split()[2], 16)
+                base = lo - off
+                break
+        wrong = []
+        if base is not None:
+            with open("/proc/%d/mem" % p.pid, "rb", buffering=0) as mem:
+                for off, add in rel:
+                    mem.seek(base + off)
+                    v = int.from_bytes(mem.read(8), "little")
+                    if v != base + add:
+                        wrong.append({"offset": hex(off), "holds": hex(v), "expected": hex(base + add)})
+        info["unrelocated_words"] = wrong[:20]
+        info["unrelocated_count"] = len(wrong)
+    except OSError as e:
+        info["audit_error"] = str(e)
+    finally:
+        try:
+            p.stdin.close()
+        except OSError:
+            pass
+        try:
+            p.wait(timeout=10)
+        except subprocess.TimeoutExpired:
+            p.kill()
+    return info
 
 
 EXTRA_ENVS = [
@@ -339,32 +451,37 @@ def run(tier):
     envs = [{"env": e, "look": None} for e in EXTRA_ENVS] + small + big
     # leads from the model first
     lead_cases = [{"argv": [[97]], "env": e, "keys": [k]} for e, k in leads]
-    cases = lead_cases + [{"argv": argvs[i % len(argvs)], "env": v["env"], "keys": KEYS} for i, v in enumerate(envs)]
+    # every third run under other real ids than root's 0/0 (a uid/gid mix-up is invisible for 0/0)
+    cases = lead_cases + [{"argv": argvs[i % len(argvs)], "env": v["env"], "keys": KEYS,
+                           "ids": (1000 + i % 7, 2000 + i % 5) if (i % 3 == 0 and os.geteuid() == 0) else None}
+                          for i, v in enumerate(envs)]
     # every argument vector at least once even if there are few env blocks
     for i in range(len(envs), len(argvs)):
         cases.append({"argv": argvs[i], "env": [], "keys": KEYS[:2]})
 
     def work(item):
         (mode, build), binary = item
-        return (mode, build), run_binary(chk, mode, build, binary, cases, tier, stack_every=0)
+        return (mode, build), run_binary(chk, mode, build, binary, cases, tier, stack_every=10 if quick else 25)
 
     results = {}
     with concurrent.futures.ThreadPoolExecutor(max_workers=6) as ex:
         for key, val in ex.map(work, sorted(bins.items())):
             results[key] = val
 
-    nontrivial = 0
+    nontrivial = set()
     lookups = 0
+    stacks = 0
     for (mode, build), (recs, raws) in sorted(results.items()):
         bad = judge(chk, recs, "%s_%s" % (mode, build))
         chk.evaluations += len(recs)
         chk.traces += len(recs) - len(bad)
         for i, rec in enumerate(recs):
             lookups += len(rec["look"])
+            stacks += 1 if rec["st"] else 0
             names = [name_of(e) for e in rec["kenv"]]
             if len(set(n for n in names if n is not None)) < len([n for n in names if n is not None]) or \
                any(a is not None and b is not None and a != b and b.startswith(a) for a in names for b in names):
-                nontrivial += 1
+                nontrivial.add(tuple(tuple(e) for e in rec["kenv"]))
             if i in bad:
                 report(chk, rec, bad[i], {"mode": mode, "build": build, "argv": rec["argv"], "env": rec["env"],
                                           "keys": [l["key"] for l in rec["look"]], "record": rec})
@@ -372,19 +489,21 @@ def run(tier):
             r = recs[len(recs) // 3]
             chk.sample({"mode": mode, "build": build, "argv": [show(a) for a in r["argv"]], "env": [show(e) for e in r["env"]],
                         "look": [[show(l["key"]), fmt_res(l["varu"])] for l in r["look"]], "mono": r["mono"]})
-    chk.nontrivial = nontrivial
+    chk.nontrivial = len(nontrivial)
     chk.exhaustive = not quick
     vd = {"%s/%s" % k: vdso_used(b) for k, b in sorted(bins.items())}
     chk.extra["vdso"] = vd
+    chk.extra["relocation_audit"] = {"%s/%s" % k: reloc_audit(b) for k, b in sorted(bins.items()) if k[0] == "spie"}
     chk.extra["model_leads_replayed"] = [{"env": [show(e) for e in e_], "key": show(k)} for e_, k in leads]
     chk.extra["execs"] = chk.evaluations
     chk.extra["lookups_judged"] = lookups
+    chk.extra["real_initial_stacks_judged"] = stacks
     chk.extra["link_modes"] = [m for m, _ in MODES]
     chk.rule = ("TLC (StartupGen.tla) enumerates all environment blocks of <= 3 entries over 23 entries (5 names x 4 values incl. '=y', "
                 "'a=b', empty; 3 entries without '='; duplicates and prefix-related names included) - %s - and all 85 argument vectors "
                 "of length <= 3 over {'', 'a', 0xff, 200 bytes}; each block is exec'd (exact vectors, tools/launch) in 3 link modes x "
                 "debug/release with all 7 keys looked up through var and var_unix; every run is one record judged by TLC "
-                "(StartupJudge.tla: args, lookups, aux getters vs /proc/<pid>/auxv, clock order). non-trivial = runs whose block has a "
+                "(StartupJudge.tla: args, lookups, aux getters vs /proc/<pid>/auxv, clock order). non-trivial = distinct blocks that have a "
                 "duplicate name or two names one a proper prefix of the other" % (
                     "all blocks of <= 2 entries plus a seeded sample of 450 3-entry blocks" if quick else "all 12 720 of them"))
     chk.assumptions = ["x86_64 only; kernel passes each aux key at most once",
